@@ -214,6 +214,30 @@ func c14FilterTerm(fl *ast.FuncLit, consts map[string][]string) (string, string)
 	return "{ " + strings.Join(fields, ", ") + " }", c14Expr(ret.Results[0])
 }
 
+// c14Stmt prints a simple statement: "return <exprs>" or the expression / assignment text
+func c14Stmt(st ast.Stmt) string {
+	switch x := st.(type) {
+	case *ast.ReturnStmt:
+		var parts []string
+		for _, r := range x.Results {
+			parts = append(parts, c14Expr(r))
+		}
+		return strings.TrimSpace("return " + strings.Join(parts, ", "))
+	case *ast.ExprStmt:
+		return c14Expr(x.X)
+	case *ast.AssignStmt:
+		var lhs, rhs []string
+		for _, e := range x.Lhs {
+			lhs = append(lhs, c14Expr(e))
+		}
+		for _, e := range x.Rhs {
+			rhs = append(rhs, c14Expr(e))
+		}
+		return strings.Join(lhs, ", ") + " " + x.Tok.String() + " " + strings.Join(rhs, ", ")
+	}
+	return fmt.Sprintf("stmt:%T", st)
+}
+
 func c14CallsIn(n ast.Node, sel string) int {
 	c := 0
 	if n == nil {
@@ -490,6 +514,31 @@ func extractC14() *lean {
 			return true
 		})
 	}
+	// every call Run makes on the notifier itself (source order), and the body of the "do not replay" branch:
+	// the model's Run reads the shelf, calls notifyNow and starts retry loops - it never deletes or rewrites a job it skips
+	var runSelfCalls, runSkipBody []string
+	if fd := funcDecl(nf, "Run"); fd != nil {
+		ast.Inspect(fd, func(n ast.Node) bool {
+			switch x := n.(type) {
+			case *ast.CallExpr:
+				if f := exprString(x.Fun); strings.HasPrefix(f, "p.") {
+					runSelfCalls = append(runSelfCalls, f)
+				}
+			case *ast.IfStmt:
+				if strings.Contains(c14Expr(x.Cond), "HasSuffix") {
+					for _, st := range x.Body.List {
+						runSkipBody = append(runSkipBody, c14Stmt(st))
+					}
+					if x.Else != nil {
+						runSkipBody = append(runSkipBody, "else")
+					}
+				}
+			}
+			return true
+		})
+	}
+	l.def("runSelfCalls", "List String", leanStrList(runSelfCalls), runSelfCalls)
+	l.def("runSkipBody", "List String", leanStrList(runSkipBody), runSkipBody)
 	l.def("runConditions", "List String", leanStrList(runConds), runConds)
 	l.def("runNotifyNowPerJob", "Nat", fmt.Sprint(runNotifyInLoop), runNotifyInLoop)
 	var failedConds []string
